@@ -18,7 +18,7 @@ pub fn registry(property: &str) -> Option<CheckSpec> {
         "C36" => Some(CheckSpec {
             property: "C36",
             level: "exploration",
-            parts: vec![Part::new(sim::Timelock, 80_000, 4_000_000)],
+            parts: vec![Part::new(sim::Timelock, 60_000, 4_000_000)],
             assumptions: vec![
                 "chainsim runtime stub (accounts db, loader, CPI privilege checks, sysvars) stands in for the Solana runtime; signatures are not verified: an actor 'signs' exactly the transactions the plan attributes to it".into(),
                 "buffered instructions target the store program (role table, config, features, authority hand-over) plus junk shapes; buffers of 0–12 accounts and 0–200 data bytes".into(),
